@@ -253,15 +253,19 @@ class LDMService:
             )
 
         # Stable sorts from the last to the first ordering attribute, each in its own direction.
+        # Data objects that lack the attribute keep their relative order after those that have it.
         ordered = tuple(search_results)
         for order in reversed(orders):
+            key = key_for(order)
+            present = [item for item in ordered if key(item) is not None]
+            missing = [item for item in ordered if key(item) is None]
             ordered = tuple(
                 sorted(
-                    ordered,
-                    key=key_for(order),
+                    present,
+                    key=key,
                     reverse=order.ordering_direction == OrderingDirection.DESCENDING,
                 )
-            )
+            ) + tuple(missing)
         return (ordered,)
 
     def add_provider_data(self, data: AddDataProviderReq) -> int | None:
